@@ -19,6 +19,8 @@ mod imp {
         pub fn verif_assert(c: bool, id: u32);
         pub fn verif_cover(id: u32);
         pub fn verif_event(kind: u32, a: u64, b: u64);
+        pub fn verif_heap_live() -> u64;
+        pub fn verif_heap_bytes() -> u64;
     }
     extern "C-unwind" {
         pub fn verif_panic();
@@ -53,6 +55,12 @@ pub fn cover(id: u32) { unsafe { imp::verif_cover(id) } }
 /// Appends to the event trace that the engine and the native run must agree on.
 #[inline(always)]
 pub fn event(kind: u32, a: u64, b: u64) { unsafe { imp::verif_event(kind, a, b) } }
+/// Number of heap allocations that are currently live (allocation table of the engine / of the instrumented allocator).
+#[inline(always)]
+pub fn heap_live() -> u64 { unsafe { imp::verif_heap_live() } }
+/// Total size of the live heap allocations.
+#[inline(always)]
+pub fn heap_bytes() -> u64 { unsafe { imp::verif_heap_bytes() } }
 /// A panic raised by a user callback (real unwinding in both back ends; no message formatting).
 #[inline(always)]
 pub fn inject_panic() { unsafe { imp::verif_panic() } }
